@@ -2145,6 +2145,8 @@ class ErrorGen(ProgramGen):
             catch = "resume"        # what coroutine.wrap does to string errors is not fixed by the manual
         if site == "co-wrap" and (val.startswith("str") or val.startswith("rt-")):
             site = "co-resume-rethrow"     # coroutine.wrap may decorate string errors (manual silent)
+        if site.startswith("co-") and "xpcall" in catch and not self.pf.get("xpcall_co"):
+            catch = "pcall"                # known finding C11-xpcall-handler-sees-coroutine-error (probe only)
         if val == "flt" and not self.pf["floats"]:
             val = "int"
         if val == "str2" and site in ("tailcall", "direct", "iterator", "retparen") and not self.pf.get("level2_any"):
